@@ -57,6 +57,7 @@ func main() {
 		lib.Fatal(err)
 	}
 	runLockset(f, res, drv, tbl)
+	runAppendTie(f, res, drv)
 	drv.Close()
 	runRace(f, res, tbl)
 	if err := res.Write(f.Out); err != nil {
@@ -429,7 +430,7 @@ func trimStacks(r report) any {
 
 func runRace(f lib.Flags, res *lib.Result, tbl *Table) {
 	mon := res.Monitor("race-detector",
-		"each scenario (value, value-equiv, collection, collection-genid, collection-models, bus, router, router-stack, wrap-unary, wrap-stream, stream-bidi, group, electric, electric-activate, parent, metadata, waste-hail, default-models, memory-devices) runs in a child process of this -race binary with 4-16 goroutines (from the seed) of seeded random reads/writes/subscribes/cancels, interceptors and consumers that read what they are given; every report of the detector is a violation whose replay is the scenario + the two stacks; distinct = scenario x goroutine count")
+		"each scenario (value, value-equiv, collection, collection-genid, collection-models, bus, router, router-stack, wrap-unary, wrap-stream, stream-bidi, group, electric, electric-activate, parent, metadata, waste-hail, default-models, memory-devices, caller-args, caller-args-wrap) runs in a child process of this -race binary with 4-16 goroutines (from the seed) of seeded random reads/writes/subscribes/cancels, interceptors and consumers that read what they are given, and (caller-args*) argument objects shared between the goroutines or rewritten right after each call returns; every report of the detector is a violation whose replay is the scenario + the two stacks; distinct = scenario x goroutine count")
 	tie := res.Tie("table-vs-detector", "K4",
 		"per scenario: the table's verdict on the fields the scenario exercises (an unordered pair in scope allows a race, none forbids it) against what the detector saw; per detector report: the two stacks are mapped to table rows by their innermost repository frame and the table must call that pair unordered (a race between rows the table orders, or at a site missing from the table, is a disagreement); non-trivial = scenario executed to completion under the detector")
 	if !raceEnabled {
